@@ -106,7 +106,9 @@ Terminates == ~(phase = "incompatible" /\ attempt = MaxAttempts)
 StructuralLaws == {"two-versions-of-one-artifact", "range-edge-outside-range", "non-root-test-optional-provided-followed", "war-ear-rar-traversed",
                    "excluded-artifact-reached", "management-not-applied", "management-applied-to-root-declaration", "declaration-neither-edge-nor-error", "unreachable-node"}
 DoneStructural == phase = "done" => \A x \in MavenViolations(U, Root, Graph, FALSE) : x[1] \notin StructuralLaws
-\* ... and nearest-wins does NOT: TLC finds the shortest universe of the family on which a requirement recorded in an
+\* where the nearest-wins deviation comes from: a resolution that never restarted obeys every law of C07, nearest-wins included
+DoneAllLawsWithoutRestart == (phase = "done" /\ attempt = 1) => MavenViolations(U, Root, Graph, FALSE) = {}
+\* ... and nearest-wins does NOT hold in general: TLC finds the shortest universe of the family on which a requirement recorded in an
 \* abandoned attempt decides a version (finding C07-F25); checked by a separate configuration that is EXPECTED to fail
 DoneNearest == phase = "done" => \A x \in MavenViolations(U, Root, Graph, FALSE) : x[1] \in StructuralLaws
 =============================================================================
